@@ -61,6 +61,10 @@ CHECKS = {
                 technique="enumeration of IR model states reachable by construction and edit histories (catalogue models x every single catalogue edit, shadowing renames, C01-alphabet world states to depth 2, one model per tensor implementation); serialise twice, snapshot before/after, structural isomorphism after the round trip",
                 text="Every ONNX-expressible state is serialised twice (byte-equal protos), its complete public snapshot is compared before/after serialisation (only initializer tensors' own names may change), and from_proto(to_proto(m)) is compared with m through a canonical structural form (node order, operator ids, connectivity incl. shared/captured/shadowing values, names, types, shapes and denotations, attributes incl. nested graphs and tensors by bytes, docs, metadata, quantization annotations, functions, opset imports, device configurations incl. identity with the model's registered configurations).",
                 note="States ONNX cannot express are excluded and counted; IR-only state (analysis meta, Node.version, frozen flags, ''/None) is not compared; documented deserialiser normalisations (initializer values always typed/shaped, trailing unnamed outputs trimmed) are applied to both sides."),
+    "C10": dict(level="exploration", engine="E6-enum", design="4/C10",
+                technique="exhaustive enumeration of location strings x base-directory spellings x read entry points on a real sandbox tree against an independent realpath/lstat reference, opens observed via the audit hook; plus read-mutate-read histories on one tensor",
+                text="Every location string of up to 3 (thorough 4) components over 18 components (., .., files, sub-directory, symlinks to files/directories inside and outside, hard links inside/outside, a sibling directory sharing the base's name as prefix, empty and missing components) plus absolute and non-normalised forms, under 8 spellings of the base directory, through 8 read entry points (numpy, __array__, tobytes, tofile to BytesIO and to a file, convert_tensors_from_external, load_to_model, serialisation of numpy()). A read may return only if the reference allows it and then exactly that file's bytes; no file outside the resolved base may even be opened. ir.load under 9 spellings of the model path (bare name, ./name, pathlib, through symlinked directory and symlinked model file, ...) must give the model's directory as base and keep rejecting escaping locations. Histories read - change base_dir / swap file for an escaping symlink / add a hard link / swap a directory for a symlink - read again (with and without release()) on one tensor object must not return outside bytes.",
+                note="tmpfs sandbox; reference = realpath + stat; over-rejection is counted but not a violation; cached arrays of a legitimately read file may be returned again."),
 }
 
 NOT_YET = {}
@@ -102,7 +106,7 @@ def main():
              "kind_free_text": "explicit-state BFS over the real transition function; states are histories replayed on fresh real objects; dedup on canonical public snapshot"},
             {"name": "E1-seq", "path": "mc/props/c11.py", "serves_properties": ["C11"],
              "kind_free_text": "stateless enumeration of all event sequences up to a depth with trace monitors"},
-            {"name": "E6-enum", "path": "mc/props/", "serves_properties": ["C02", "C04", "C12", "C16", "C17"],
+            {"name": "E6-enum", "path": "mc/props/", "serves_properties": ["C02", "C04", "C10", "C12", "C16", "C17"],
              "kind_free_text": "small-scope exhaustive input/structure enumeration with independent reference oracles"},
             {"name": "E5-fsfault", "path": "mc/fsfault.py", "serves_properties": ["C08"],
              "kind_free_text": "file-system effect interception + exhaustive fault/crash/torn-write plans"},
